@@ -53,6 +53,7 @@ def cases(tier, seed):
     bases = [dict(p=2), dict(p=1, q=1), dict(p=1, r=1), dict(p=3), dict(p=2, r=1), dict(p=1, q=2)]
     if tier == 'thorough':
         bases = [dict(p=p, q=q, r=r) for d in (1, 2, 3) for p, q, r in pat.pqr_all(d)] + [dict(p=3, r=1), dict(p=4), dict(p=1, q=3)]
+    d4 = [dict(p=4), dict(p=2, q=2)]          # d = 4: only the outer tangent slice below (quick), everything (thorough)
     out += _graded_sweep(tier)
     for base in bases:
         d = sum(base.values())
@@ -68,6 +69,10 @@ def cases(tier, seed):
                     if d >= 3 and op in ('sw', 'proj', 'div') and (len(ka) + len(kb) > 8):
                         ka = rng.choice([g for g in G if len(g) <= 4]); kb = rng.choice([g for g in G if len(g) <= 4])
                     out.append(dict(kind='binary', base=base, opt=oname, op=op, ka=list(ka), kb=list(kb)))
+            if d == 4 and oname in ('cse=False', 'sympy-symbols', 'cse=False+sympy', 'wrapper=closure'):
+                biv = [k for k in pat.canon_order(4, 0 if base.get('r') == 1 else 1) if bin(k).count('1') == 2]
+                for ka in (biv, biv[:3], [biv[0], biv[-1]]):
+                    out.append(dict(kind='unary', base=base, opt=oname, op='outertan', ka=list(ka)))
             # inverse / division on every single-grade pattern (null blades, pseudoscalars: raise behaviour must agree too)
             for g in [g for g in pat.GRD(d, max_grades=1) if g]:
                 out.append(dict(kind='unary', base=base, opt=oname, op='inv', ka=list(g)))
@@ -84,6 +89,12 @@ def cases(tier, seed):
                     if d >= 4 and op == 'outertan':
                         continue
                     out.append(dict(kind='unary', base=base, opt=oname, op=op, ka=list(ka)))
+    if tier == 'quick':
+        for base in d4:
+            biv = [k for k in pat.canon_order(4) if bin(k).count('1') == 2]
+            for oname in ('cse=False', 'sympy-symbols', 'cse=False+sympy', 'wrapper=closure'):
+                for ka in (biv, biv[:3], [biv[0], biv[-1]]):
+                    out.append(dict(kind='unary', base=base, opt=oname, op='outertan', ka=list(ka)))
     return out
 
 
